@@ -120,13 +120,30 @@ def expected(p, vs):
             "wind==0": ob or (not oi)}
 
 
+SCRATCH = []   # one long-lived list object whose CONTENTS are replaced polygon after polygon
+
+
 def observe(vec, p, vs):
-    w = vec.wind(p, vs)
-    return {"sideOnly": vec.sideOnly(p, vs), "insideOnly": vec.insideOnly(p, vs),
-            "outsideOnly": vec.outsideOnly(p, vs),
-            "inside(side=True)": vec.inside(p, vs, True), "inside(side=False)": vec.inside(p, vs, False),
-            "outside(side=True)": vec.outside(p, vs, True), "outside(side=False)": vec.outside(p, vs, False),
-            "wind==0": w == 0}, w
+    """every predicate is called with a fresh short-lived copy of the vertex list (so object identities are
+    recycled from polygon to polygon) and again with one long-lived list edited in place: the answers are a
+    function of the VALUES p and vs only, not of object identity or of earlier calls"""
+    w = vec.wind(p, list(vs))
+    obs = {"sideOnly": vec.sideOnly(p, list(vs)), "insideOnly": vec.insideOnly(p, list(vs)),
+           "outsideOnly": vec.outsideOnly(p, list(vs)),
+           "inside(side=True)": vec.inside(p, list(vs), True), "inside(side=False)": vec.inside(p, list(vs), False),
+           "outside(side=True)": vec.outside(p, list(vs), True), "outside(side=False)": vec.outside(p, list(vs), False),
+           "wind==0": w == 0}
+    SCRATCH[:] = vs
+    w2 = vec.wind(p, SCRATCH)
+    obs2 = {"sideOnly": vec.sideOnly(p, SCRATCH), "insideOnly": vec.insideOnly(p, SCRATCH),
+            "outsideOnly": vec.outsideOnly(p, SCRATCH),
+            "inside(side=True)": vec.inside(p, SCRATCH, True), "inside(side=False)": vec.inside(p, SCRATCH, False),
+            "outside(side=True)": vec.outside(p, SCRATCH, True), "outside(side=False)": vec.outside(p, SCRATCH, False),
+            "wind==0": w2 == 0}
+    if obs2 != obs or w2 != w:
+        # report the in-place answers: the exact oracle / the model comparison below then flags them
+        return obs2, w2
+    return obs, w
 
 
 ORDER = ["sideOnly", "insideOnly", "outsideOnly", "inside(side=True)", "inside(side=False)",
